@@ -18,12 +18,16 @@ static Val toVal(int s) { if (s == 0) return {0, 0}; if (s > 0) return {1, (M0 -
 typedef std::function<int(const Position&, int)> MateOracle;  // (pos, N): 1 = side to move can force mate within N moves, 0 = cannot, -1 = unknown
 typedef std::function<int(const Position&, int)> LossOracle;  // (pos, N): 1 = side to move is mated within N moves whatever it does, 0 = not, -1 unknown
 
-static void judge(sd::Env& env, Position& pos, int depth, const std::string& cfg, const MateOracle& canMate, const LossOracle& isLost, bool mateInOneExists) {
+static void judge(sd::Env& env, Position& pos, int depth, const std::string& cfg, const MateOracle& canMateRaw, const LossOracle& isLost, bool mateInOneExists) {
     std::string fen = TextIO::toFEN(pos);
+    std::map<int, int> memo;   // the same claim is usually repeated by every iteration
+    auto canMate = [&](const Position& p, int N) { auto it = memo.find(N); if (it != memo.end()) return it->second; int r = canMateRaw(p, N); memo[N] = r; return r; };
     MoveList lm; MoveGen::pseudoLegalMoves(pos, lm); MoveGen::removeIllegal(pos, lm);
     if (lm.size == 0) return;
     W->crumb(cfg + " d" + std::to_string(depth) + " " + fen);
+    // depth < 0: search without depth / node limit (the path that builds and consults the on-demand tablebase), ended by the counting stop handler
     sd::Params p; p.maxDepth = depth; p.minProbeDepth = 100;
+    if (depth < 0) { p = sd::Params(); p.maxDepth = -1; p.maxNodes = -1; p.stopAfterPolls = (int)W->args.getInt("polls", 3); }
     sd::Outcome o = sd::run(env, pos, p);
     R.count("states");
     R.count("transitions", (long long)o.lines.size());
@@ -41,7 +45,9 @@ static void judge(sd::Env& env, Position& pos, int depth, const std::string& cfg
             else R.count("verified_mate_claims");
         }
     }
-    const sd::PVLine& fin = o.lines.back();
+    const sd::PVLine* finp = depth < 0 ? o.finalCompleted() : &o.lines.back();
+    if (!finp) { R.count("no_completed_iteration"); return; }
+    const sd::PVLine& fin = *finp;
     if (anyMate) R.count("nontrivial");
     // best move delivered with a winning mate score keeps a forced mate
     if (fin.isMate && fin.score > 0 && !fin.upper) {
@@ -146,6 +152,38 @@ int main(int argc, char** argv) {
             });
             if (w.dl.hit()) { R.exhaustive = false; break; }
             if (R.samples.size() < 3) R.sampleStr(cls);
+        }
+    } else if (part == "tbsearch") {
+        // searches that consult the on-demand tablebase (no depth limit), judged by the independent AND/OR solver: every announced
+        // mate distance up to maxmate is verified by exhaustive search with the oracle's move generator, nothing of texel's table is trusted
+        int maxMate = (int)w.args.getInt("maxmate", 3);
+        long sstride = w.args.getInt("sstride", 1), lstride = w.args.getInt("lstride", 1);
+        MateOracle cm = [&](const Position& p, int N) { if (N > maxMate) return -1; return orc::canMateIn(br::fromTexel(p), N) ? 1 : 0; };
+        LossOracle il = [&](const Position& p, int N) { if (N > maxMate) return -1; return orc::isMatedWithin(br::fromTexel(p), N) ? 1 : 0; };
+        std::istringstream is(w.args.get("names", "KQvKN,KRvKB")); std::string n;
+        while (std::getline(is, n, ',')) {
+            std::vector<int> pcs; bool black = false;
+            for (size_t i = 1; i < n.size(); i++) { char c = n[i]; if (c == 'v') { black = true; i++; continue; } const char* q = strchr(orc::PCH + 1, c); if (q) pcs.push_back(orc::mk(!black, (int)(q - orc::PCH))); }
+            std::vector<int> all = {orc::WK, orc::BK}; for (int p : pcs) all.push_back(p);
+            std::string cls = uni::className(all);
+            sd::Env env(1024 * 1024);   // 16 MB: hosts the on-demand table
+            // root selection only (never the verdict): a table generated by the engine's own generator tells which roots will be
+            // announced as short mates; those are all searched, the rest every stride-th
+            VectorStorage vs; TBGenerator<VectorStorage> gen(vs, toPC(pcs)); RelaxedShared<S64> inf(-1);
+            if (!gen.generate(inf, false)) return 2;
+            uni::Part P1{0, 1}; unsigned long long c = 0, vcount = 0, scount = 0, lcount = 0;
+            uni::placeAll(all, 2, P1, [&](const orc::Board& b, unsigned long long) {
+                unsigned long long vi = vcount++;
+                Position pos; try { pos = TextIO::readFEN(orc::toFEN(b)); } catch (const ChessParseError&) { return; }
+                int sc; bool shortMate = false, shortLoss = false;
+                if (gen.probeDTM(pos, 0, sc)) { Val v = toVal(sc); shortMate = v.kind > 0 && v.n <= maxMate; shortLoss = v.kind < 0 && v.n <= maxMate; }
+                if (shortLoss) { unsigned long long li = lcount++; if (li % (unsigned long long)lstride != 0 || !P.mine(li / (unsigned long long)lstride)) return; R.count("short_loss_roots"); }
+                else if (shortMate) { unsigned long long si = scount++; if (si % (unsigned long long)sstride != 0 || !P.mine(si / (unsigned long long)sstride)) return; R.count("short_mate_roots"); }
+                else if (vi % (unsigned long long)stride != 0 || !P.mine(vi / (unsigned long long)stride)) return;
+                judge(env, pos, -1, cls + "-tbsearch", cm, il, false);
+            }, c, [&]() { return w.dl.hit(); });
+            if (w.dl.hit()) { R.exhaustive = false; break; }
+            if (R.samples.size() < 3) R.sampleStr(cls + " (tablebase-backed searches)");
         }
     } else if (part == "solver") {
         // positions of the seed trees with a forced mate found by the independent AND/OR solver
